@@ -1092,6 +1092,24 @@ def _deepcopy_sym(x):
     return _copy.deepcopy(x)
 
 
+@model(_copy.copy)
+def _shallowcopy(I, a, k):
+    """copy.copy: a new container holding the SAME members (dict / list / Bunch); arrays are copied (ndarray.__copy__ copies the data)"""
+    x = a[0]
+    if isinstance(x, dict):
+        out = type(x)() if type(x) is not dict else {}
+        for kk, v in x.items():
+            out[kk] = v
+        return out
+    if isinstance(x, list):
+        return list(x)
+    if isinstance(x, SArr):
+        return x.copy()
+    if not _anysym(a, k):
+        return NotImplemented
+    raise Unsupported(f"copy.copy of {type(x).__name__}")
+
+
 @model(_copy.deepcopy)
 def _deepcopy(I, a, k):
     if not _anysym(a):
